@@ -174,21 +174,228 @@ Fixpoint all_match (rs : list ran) (os : list observation) : bool :=
   | _, _ => false
   end.
 
+(* ---- the kinds of dependency edges (depInfo flags) and the accessors of target.dependencies ---- *)
+(* type depInfo: source (only in srcs), internal, runtime, data.  exported does not enter any accessor
+   modelled here. *)
+Record flags := Fl { f_source : bool; f_internal : bool; f_runtime : bool; f_data : bool }.
+Definition plain : flags := Fl false false false false.
+
+(* one entry of target.dependencies: the declared label (= the number of the target that carries it),
+   its flags, the targets it was resolved to *)
+Record dinfo := DI { d_label : nat; d_flags : flags; d_deps : list nat }.
+
+Inductive kop :=
+| KDeclare (b : nat) (source internal runtime : bool)   (* AddMaybeExportedDependency(label b, false, source, internal, runtime) *)
+| KDatum (b : nat)                                      (* AddDatum(label b) *)
+| KResolve (b : nat).                                   (* resolveDependency(label b, target b) *)
+
+(* dependencyInfo(label): the first entry that declares it *)
+Fixpoint upd_info (b : nat) (f : dinfo -> dinfo) (l : list dinfo) : option (list dinfo) :=
+  match l with
+  | [] => None
+  | di :: r => if Nat.eqb (d_label di) b then Some (f di :: r)
+               else match upd_info b f r with Some r' => Some (di :: r') | None => None end
+  end.
+
+(* info.source = info.source && source; ... ; info.data = false *)
+Definition merge_flags (source internal runtime : bool) (di : dinfo) : dinfo :=
+  DI (d_label di)
+     (Fl (f_source (d_flags di) && source) (f_internal (d_flags di) && internal) (f_runtime (d_flags di) && runtime) false)
+     (d_deps di).
+
+Definition declare (b : nat) (source internal runtime : bool) (l : list dinfo) : list dinfo :=
+  match upd_info b (merge_flags source internal runtime) l with
+  | Some l' => l'
+  | None => l ++ [DI b (Fl source internal runtime false) []]
+  end.
+
+Definition set_data (di : dinfo) : dinfo :=
+  DI (d_label di) (Fl (f_source (d_flags di)) (f_internal (d_flags di)) (f_runtime (d_flags di)) true) (d_deps di).
+
+Definition add_dep (b : nat) (di : dinfo) : dinfo := DI (d_label di) (d_flags di) (d_deps di ++ [b]).
+
+Definition apply_kop (l : list dinfo) (o : kop) : list dinfo :=
+  match o with
+  | KDeclare b s i r => declare b s i r l
+  | KDatum b =>                      (* target.AddDependency(label); target.dependencyInfo(label).data = true *)
+      let l1 := declare b false false false l in
+      match upd_info b set_data l1 with Some l' => l' | None => l1 end
+  | KResolve b =>                    (* info == nil: append depInfo{declared: &label}; info.deps = append(info.deps, dep) *)
+      match upd_info b (add_dep b) l with
+      | Some l' => l'
+      | None => l ++ [DI b plain [b]]
+      end
+  end.
+
+(* target.dependencies of every target *)
+Definition kworld := list (list dinfo).
+
+Fixpoint upd_row_gen {A : Type} (a : nat) (f : A -> A) (g : list A) : list A :=
+  match g, a with
+  | [], _ => []
+  | row :: r, O => f row :: r
+  | row :: r, S a' => row :: upd_row_gen a' f r
+  end.
+
+Definition kw_apply (w : kworld) (ao : nat * kop) : kworld := upd_row_gen (fst ao) (fun l => apply_kop l (snd ao)) w.
+
+(* BuildDependencies: if !deps.runtime && !deps.data && !deps.internal && !deps.source *)
+Definition excluded_build (f : flags) : bool := f_runtime f || f_data f || f_internal f || f_source f.
+
+Definition row_all (l : list dinfo) : list nat := flat_map d_deps l.
+Definition row_build (l : list dinfo) : list nat :=
+  flat_map (fun di => if excluded_build (d_flags di) then [] else d_deps di) l.
+
+(* sort.Sort(ret): by label.  rk t = the place of target t's label among the labels of the graph
+   (labels are distinct, so equal keys are the same target and stability does not matter). *)
+Fixpoint insert_by (rk : nat -> nat) (x : nat) (l : list nat) : list nat :=
+  match l with
+  | [] => [x]
+  | y :: r => if Nat.leb (rk x) (rk y) then x :: l else y :: insert_by rk x r
+  end.
+Definition sort_by (rk : nat -> nat) (l : list nat) : list nat := fold_right (insert_by rk) [] l.
+
+Definition rank_fn (ranks : list nat) (t : nat) : nat := nth t ranks 0.
+
+(* Dependencies() of every target: what queueTargetAsync waits for, and what Check walks *)
+Definition wait_graph (ranks : list nat) (w : kworld) : graph := map (fun l => sort_by (rank_fn ranks) (row_all l)) w.
+(* BuildDependencies() of every target *)
+Definition build_graph (ranks : list nat) (w : kworld) : graph := map (fun l => sort_by (rank_fn ranks) (row_build l)) w.
+
+Definition kworld0 (n : nat) : kworld := repeat [] n.
+Definition kw_run (n : nat) (ops : list (nat * kop)) : kworld := fold_left kw_apply ops (kworld0 n).
+
+(* ---- target states while the build waits (queueResolvedTarget / queueTargetAsync / the build step) ---- *)
+(* type BuildTargetState, in declaration order *)
+Inductive tstate := Inactive | Semiactive | Active | Pending | Building | Stopped | Built | Cached | Unchanged
+                  | Reused | BuiltRemotely | ReusedRemotely | DependencyFailed | Failed.
+Definition rank (s : tstate) : N :=
+  match s with
+  | Inactive => 0 | Semiactive => 1 | Active => 2 | Pending => 3 | Building => 4 | Stopped => 5 | Built => 6
+  | Cached => 7 | Unchanged => 8 | Reused => 9 | BuiltRemotely => 10 | ReusedRemotely => 11
+  | DependencyFailed => 12 | Failed => 13
+  end%N.
+Definition tstate_eqb (a b : tstate) : bool := N.eqb (rank a) (rank b).
+(* IsBuilt: Built <= s && s < DependencyFailed *)
+Definition is_built (s : tstate) : bool := N.leb (rank Built) (rank s) && N.ltb (rank s) (rank DependencyFailed).
+(* queueTargetAsync: t.State() >= DependencyFailed *)
+Definition is_failed (s : tstate) : bool := N.leb (rank DependencyFailed) (rank s).
+
+(* the states of all targets, and the targets that were built successfully, latest first *)
+Record lworld := LW { l_state : list tstate; l_built : list nat }.
+Definition state_of (w : lworld) (v : nat) : tstate := nth v (l_state w) Inactive.
+
+Fixpoint set_nth {A : Type} (k : nat) (x : A) (l : list A) : list A :=
+  match l, k with
+  | [], _ => []
+  | _ :: r, O => x :: r
+  | y :: r, S k' => y :: set_nth k' x r
+  end.
+Definition set_state (w : lworld) (v : nat) (s : tstate) : lworld := LW (set_nth v s (l_state w)) (l_built w).
+
+(* for _, t := range target.Dependencies() { t.WaitForBuild(); if t.State() >= DependencyFailed {...} }:
+   the first dependency, in the order of Dependencies(), that has not been built successfully *)
+Fixpoint first_unbuilt (w : lworld) (ds : list nat) : option nat :=
+  match ds with
+  | [] => None
+  | d :: r => if is_built (state_of w d) then first_unbuilt w r else Some d
+  end.
+
+Inductive levent :=
+| LQueue (t : nat)                 (* queueResolvedTarget: SyncUpdateState(Inactive, Active), go queueTargetAsync *)
+| LDepFailed (t d : nat)           (* queueTargetAsync(t): d is the dependency it is waiting for and d finished failed:
+                                      target.SetState(DependencyFailed); target.FinishBuild() *)
+| LReady (t : nat)                 (* queueTargetAsync(t): every dependency built: SyncUpdateState(Active, Pending), addPendingBuild *)
+| LBuild (t : nat) (r : tstate).   (* the build step: SetState(r) with r a built state or Failed; FinishBuild() *)
+
+(* None: the event cannot happen in this world *)
+Definition lstep (g : graph) (w : lworld) (e : levent) : option lworld :=
+  match e with
+  | LQueue t => if tstate_eqb (state_of w t) Inactive && Nat.ltb t (length (l_state w)) then Some (set_state w t Active) else None
+  | LDepFailed t d =>
+      if tstate_eqb (state_of w t) Active then
+        match first_unbuilt w (deps g t) with
+        | Some d' => if Nat.eqb d d' && is_failed (state_of w d) then Some (set_state w t DependencyFailed) else None
+        | None => None
+        end
+      else None
+  | LReady t =>
+      if tstate_eqb (state_of w t) Active then
+        match first_unbuilt w (deps g t) with None => Some (set_state w t Pending) | Some _ => None end
+      else None
+  | LBuild t r =>
+      if tstate_eqb (state_of w t) Pending then
+        if is_built r then Some (LW (set_nth t r (l_state w)) (t :: l_built w))
+        else if tstate_eqb r Failed then Some (set_state w t Failed) else None
+      else None
+  end.
+
+(* any sequence of attempts; one that cannot happen changes nothing *)
+Definition ldo (g : graph) (w : lworld) (e : levent) : lworld :=
+  match lstep g w e with Some w' => w' | None => w end.
+Definition lrun (g : graph) (w : lworld) (es : list levent) : lworld := fold_left (ldo g) es w.
+
+Definition lworld0 (n : nat) : lworld := LW (repeat Inactive n) [].
+
+(* One fair schedule, to compare with a real run that was left to go quiet: what target t can do now.
+   plan: how the build step of each target ends if it is ever reached. *)
+Definition target_events (g : graph) (plan : list tstate) (w : lworld) (t : nat) : list levent :=
+  if tstate_eqb (state_of w t) Active then
+    map LQueue (deps g t) ++
+    match first_unbuilt w (deps g t) with None => [LReady t] | Some d => [LDepFailed t d] end
+  else if tstate_eqb (state_of w t) Pending then [LBuild t (nth t plan Built)]
+  else [].
+
+Fixpoint round (g : graph) (plan : list tstate) (ts : list nat) (w : lworld) : lworld :=
+  match ts with
+  | [] => w
+  | t :: r => round g plan r (lrun g w (target_events g plan w t))
+  end.
+
+Fixpoint settle (g : graph) (plan : list tstate) (fuel : nat) (w : lworld) : lworld :=
+  match fuel with
+  | O => w
+  | S f => settle g plan f (round g plan (seq 0 (length (l_state w))) w)
+  end.
+
+(* QueueTarget(root) for every root, then everything that can happen happens *)
+Definition settled (g : graph) (roots : list nat) (plan : list tstate) : lworld :=
+  settle g plan (3 * length g + 3) (lrun g (lworld0 (length g)) (map LQueue roots)).
+
+Definition obs_matches (o : outcome) (obs : option (list nat)) : bool :=
+  match o, obs with
+  | Clean, None => true
+  | Found cyc, Some cyc' => list_eqb Nat.eqb cyc cyc'
+  | _, _ => false
+  end.
+
 (* ---- correspondence cases ---- *)
 (* g: Dependencies() of every target; order: AllTargets(); observed: the returned errCycle.Cycle *)
 Inductive case :=
 | CCheck (g : graph) (order : list nat) (observed : option (list nat))
 (* es: what was done to one graph and ONE detector, in order, starting from NewGraph(); observed: one
    observation per ECheck of es *)
-| CSession (es : list event) (observed : list observation).
+| CSession (es : list event) (observed : list observation)
+(* n targets; ranks: the place of every target's label in label order; ops: the declarations and
+   resolutions, in order; observed: Dependencies() and BuildDependencies() of every target, the result of Check *)
+| CKinded (n : nat) (ranks : list nat) (ops : list (nat * kop)) (order : list nat)
+          (obs_all obs_build : graph) (observed : option (list nat))
+(* g: Dependencies() of every target after the real queueing code went quiet; roots: the targets given to
+   QueueTarget; plan: how each build step ends; observed: State() of every target, the result of Check *)
+| CLife (g : graph) (roots : list nat) (plan : list tstate) (order : list nat)
+        (obs_states : list tstate) (observed : option (list nat)).
+
+Definition graph_eqb : graph -> graph -> bool := list_eqb (list_eqb Nat.eqb).
 
 Definition check (c : case) : bool :=
   match c with
-  | CCheck g order obs =>
-      match detect g order, obs with
-      | Clean, None => true
-      | Found cyc, Some cyc' => list_eqb Nat.eqb cyc cyc'
-      | _, _ => false
-      end
+  | CCheck g order obs => obs_matches (detect g order) obs
   | CSession es obs => all_match (run_session detect world0 es) obs
+  | CKinded n ranks ops order obs_all obs_build obs =>
+      let w := kw_run n ops in
+      graph_eqb (wait_graph ranks w) obs_all && graph_eqb (build_graph ranks w) obs_build
+      && obs_matches (detect (wait_graph ranks w) order) obs
+  | CLife g roots plan order obs_states obs =>
+      list_eqb tstate_eqb (l_state (settled g roots plan)) obs_states
+      && obs_matches (detect g order) obs
   end.
